@@ -43,6 +43,11 @@ def configs(tier):
         out.append({"rbm": "purification", "nv": nv, "nh": nh, "na": na})
     for kind in ("positive", "complex", "mixed"):
         out.append({"rbm": "sample", "kind": kind, "nv": 2, "nh": 2, "na": 1})
+    # the same obligations on objects reached as copies of other objects (copy.deepcopy / pickle round trip)
+    out.append({"rbm": "binary", "nv": 2, "nh": 1, "via": "deepcopy"})
+    out.append({"rbm": "purification", "nv": 1, "nh": 1, "na": 1, "via": "deepcopy"})
+    out.append({"rbm": "purification", "nv": 2, "nh": 1, "na": 2, "via": "pickle"})
+    out.append({"rbm": "sample", "kind": "mixed", "nv": 2, "nh": 2, "na": 1, "via": "deepcopy"})
     out.append({"generic": "every shape"})
     out.append({"lean": "size-generic lemmas"})
     return out
@@ -65,6 +70,9 @@ def run_config(ctx, cfg):
     if cfg.get("generic"):
         from contracts import gsets
         return gsets.run(ctx, "C05")
+    from drivers import common as _DC
+    _DC.VIA[0] = cfg.get("via")        # the object under contract is reached as a copy of another one (drivers/common.copied)
+    _DC.SYM_ORIG[0] = cfg.get("rbm") != "sample"        # the sample() history runs on numbers
     if cfg["rbm"] == "binary":
         return _binary(ctx, cfg)
     if cfg["rbm"] == "purification":
@@ -75,9 +83,10 @@ def run_config(ctx, cfg):
 # --------------------------------------------------------------------- plain RBM
 def _binary(ctx, cfg):
     from qucumber.rbm import BinaryRBM
+    from drivers import common as _DC
     canary = getattr(ctx, "canary", None)
     nv, nh = cfg["nv"], cfg["nh"]
-    rbm = BinaryRBM(nv, nh, gpu=False)
+    rbm = _DC.copied(BinaryRBM(nv, nh, gpu=False))
     N.symbolize(rbm, "am")
     par = R.params_of(rbm)
     spar = par
@@ -275,9 +284,10 @@ def _gibbs(ctx, rbm, nv, nh, na, cond_h, cond_v, cond_a):
 # --------------------------------------------------------------------- purification RBM
 def _purification(ctx, cfg):
     from qucumber.rbm import PurificationRBM
+    from drivers import common as _DC
     canary = getattr(ctx, "canary", None)
     nv, nh, na = cfg["nv"], cfg["nh"], cfg["na"]
-    rbm = PurificationRBM(nv, nh, na, gpu=False)
+    rbm = _DC.copied(PurificationRBM(nv, nh, na, gpu=False))
     N.symbolize(rbm, "am")
     par = R.params_of(rbm)
     vs, hs, as_ = R.bits(nv), R.bits(nh), R.bits(na)
